@@ -38,7 +38,9 @@ def max_distinct_overhangs(k):
     return (4 ** k - pal) // 2
 
 
-def gen_overhangs(rng, k, count):
+def gen_overhangs(rng, k, count, forbid=()):
+    """pairwise distinct, non-palindromic overhangs no two of which are reverse complements;
+    `forbid`: substrings (the recognition site and its reverse complement) an overhang must not contain"""
     out = []
     seen = set()
     tries = 0
@@ -47,7 +49,7 @@ def gen_overhangs(rng, k, count):
         if tries > 10000:
             raise RuntimeError("cannot draw %d overhangs of length %d" % (count, k))
         o = rand_dna(rng, k)
-        if o == rc(o) or o in seen or rc(o) in seen:
+        if o == rc(o) or o in seen or rc(o) in seen or any(f in o for f in forbid):
             continue
         seen.add(o)
         out.append(o)
